@@ -59,6 +59,11 @@ CHECKS = {
             "either an alias the select list defines or the alias-free expression (never an alias under MSSQL/Oracle GROUP BY). Classes without a recipe are "
             "built from their signature; unbuildable ones are listed as uncovered.",
             "Trusted: the position templates in pbt/props/c12.py and the legality table (Star/Index/Rollup carry no alias; period criteria are not select items)."),
+    "C16": ("explicit clause-slot templates x six classes x table pairs (enumerated) + Hypothesis expressions and statements; build-with-NEW equality and an independent object-graph walk",
+            "R = x.replace_table(OLD, NEW) is compared with the same program built with NEW from the start under all six contexts (terms with namespaces forced so a "
+            "surviving reference cannot hide behind bare column names); a __dict__ walker that shares nothing with nodes_ looks for any table equal to OLD in R; the "
+            "receiver must render as before; exceptions are violations. One template per clause slot makes the statement matrix exhaustive.",
+            "Trusted: pbt/prog.py substitution of the table symbol; the walker's notion of 'reference' (Table instances reachable through __dict__, not through a field's subquery namespace)."),
 }
 
 NOT_BUILT = {}
